@@ -35,6 +35,12 @@ def run(freq, amp, peak_f, mask, n, max_iterations, dist_fn, dist_mc, search_ran
     mask = np.array(mask, dtype=bool)
     status = "ok"
     trace = []
+    # With integer peak frequencies and the normal distribution every sum is exact and the
+    # mean is one correctly rounded division, so 'mean == peak of the mean curve' and
+    # 'std == 0' come out the same in every implementation: those zero tests can be judged.
+    fin = peak_f[~np.isnan(peak_f)]
+    exact = dist_fn == "normal" and len(fin) > 0 and bool(np.all(fin == np.round(fin))) and \
+        bool(np.all(np.abs(fin) < 2.0 ** 40)) and bool(np.all(freq == np.round(freq)))
 
     def worse(s):
         nonlocal status
@@ -117,8 +123,8 @@ def run(freq, amp, peak_f, mask, n, max_iterations, dist_fn, dist_mc, search_ran
         d_after = abs(mean_a - pk_a)
         scale = max(abs(mean_b), abs(pk_b), 1e-300)
         for q in (diff_b / scale, std_b, std_a):
-            if q <= ZERO:
-                worse("tie")          # exactly-zero tests are rounding luck
+            if q <= ZERO and not (exact and q == 0):
+                worse("tie")          # exactly-zero tests are rounding luck, unless the arithmetic is exact
         if diff_b == 0 or std_b == 0 or std_a == 0:
             return mask, it, status, trace
         d_diff = abs(d_after - diff_b) / diff_b
